@@ -81,6 +81,13 @@ std::string observers(DynamicBitset& a)
       catch (const std::exception&) { test_ok = false; }
    }
    if (!test_ok) s += "!test";
+   // to_string( zero, one) with other characters is to_string() with the characters exchanged
+   for (auto zo : { std::pair<char, char>('1', '0'), std::pair<char, char>('.', 'x'), std::pair<char, char>('0', '0'), std::pair<char, char>('x', '1') })
+   {
+      std::string want(str);
+      for (auto& ch : want) ch = ch == '0' ? zo.first : zo.second;
+      if (c.to_string(zo.first, zo.second) != want) { s += std::string("!to_string(") + zo.first + "," + zo.second + ")"; break; }
+   }
 
    // forward: non-const begin()/end() with pre-increment (what range-for does) ...
    std::string fwd = iterate(n, [&] { return a.begin(); }, [&] { return a.end(); }, [](auto& it) { ++it; });
